@@ -501,7 +501,8 @@ class Body:
                     return f"{rv[1]}({self.root(rv[2], depth + 1, accessors)})" + rest
                 if rv[0] == "agg":
                     inner = ",".join(self.root(o, depth + 1, accessors) for o in rv[4])
-                    return f"{rv[1]}:{rv[2]}{{{inner}}}" + rest
+                    variant = f"::{rv[3]}" if rv[3] and not rv[2].endswith("::" + rv[3]) else ""
+                    return f"{rv[1]}:{rv[2]}{variant}{{{inner}}}" + rest
                 if rv[0] == "disc":
                     return f"disc({self.place_root(rv[1], depth + 1, accessors)})" + rest
             elif d[0] == "call":
